@@ -140,7 +140,7 @@ fn rawf(ty: u8, flags: u8, stream: u32, payload: Vec<u8>) -> PStep {
 const STATES: &[&str] = &["none", "open", "half-closed-remote", "closed", "peer-reset"];
 
 /// Returns the catalogue size so generators / evidence can report coverage.
-pub const N_ITEMS_SERVER: usize = 80;
+pub const N_ITEMS_SERVER: usize = 82;
 
 #[allow(clippy::too_many_lines)]
 fn server_item(k: usize, t: &mut Tape, target: u32, state: &str, next_id: u32, cfg: &Cfg) -> Option<(Vec<PStep>, Inject)> {
@@ -319,6 +319,21 @@ fn server_item(k: usize, t: &mut Tape, target: u32, state: &str, next_id: u32, c
                 (v, mk("refused-stream-id-opened-again", Class::Either, 0, "§5.1.1 stream identifiers cannot be reused: a second HEADERS for a refused stream never starts a request", vec![last]))
             }
         }
+        80 | 81 => {
+            // a request rejected while its header block is decoded (malformed: stream error) on an identifier that
+            // skips ahead: the identifier and everything below it are used up all the same
+            let bad = PStep::Headers { stream: idle + 4, fields: vec![(":method".into(), "GET".into()), (":scheme".into(), "https".into()), (":path".into(), "/".into()), ("connection".into(), "close".into())], end_stream: true, splits: vec![], pad: None, prio: None, enc: 0 };
+            if k == 80 {
+                (vec![bad, PStep::Barrier, hdr(idle, "GET", true)], mk("lower-stream-id-after-rejected-request", Class::Conn, 0, "§5.1.1 identifiers MUST be numerically greater than all streams the endpoint has opened — a request answered with a stream error was opened", vec![idle]))
+            } else {
+                let late = match t.below(3) {
+                    0 => fr(Frame::Rst { stream: idle + 4, code: 8 }),
+                    1 => fr(Frame::WinUp { stream: idle + 4, inc: 10, inc_r: false }),
+                    _ => fr(Frame::Data { stream: idle + 4, end_stream: false, pad: None, data: vec![1, 2, 3] }),
+                };
+                (vec![bad, PStep::Barrier, PStep::Yield(20), late], mk("late-frame-on-rejected-request", Class::Legal, idle + 4, "§5.4.2 after sending RST_STREAM an endpoint MUST be prepared to receive frames the peer sent before it arrived (here: for a request it rejected as malformed)", vec![idle + 4]))
+            }
+        }
         77 => (vec![fr(Frame::Settings { ack: false, params: vec![(3, 0), (4, 0)] }), fr(Frame::Settings { ack: false, params: vec![(3, 100), (4, 65535)] })], mk("settings-zero-limits-then-restore", Class::Legal, 0, "§6.5.2 zero is a valid value for MAX_CONCURRENT_STREAMS and INITIAL_WINDOW_SIZE", vec![])),
         _ => return None,
     })
@@ -346,6 +361,20 @@ pub fn gen_catalogue_server(tapes: &[Vec<u32>]) -> RawCase {
         cfg.header_table = Some(*t.pick(&[0u32, 100, 4096]));
     }
     cfg.reset_dur_zero = t.chance(1, 3);
+    if matches!(k_pre, 78 | 81) && t.bool() {
+        // (no memory of reset streams: the late frames meet a stream the endpoint has already forgotten)
+        cfg.reset_max = Some(0);
+    }
+    // variant: the item arrives while the endpoint's own writes are stuck behind a large response the peer does
+    // not read (whatever reaction is owed has to survive the back-pressure)
+    let back_pressure = k_pre != 44 && t.chance(1, 4);
+    // (the blocked response occupies a concurrency slot of its own: items that count slots see the limit they expect)
+    let item_cfg = cfg.clone();
+    if back_pressure {
+        if let Some(m) = cfg.max_concurrent {
+            cfg.max_concurrent = Some(m + 1);
+        }
+    }
     // handshake completed in both directions before anything else (E's SETTINGS seen and acknowledged)
     let mut script: Vec<PStep> = vec![PStep::Barrier];
     let mut reqs: Vec<Req> = Vec::new();
@@ -431,7 +460,7 @@ pub fn gen_catalogue_server(tapes: &[Vec<u32>]) -> RawCase {
                 k
             }
         };
-        if let Some((steps, mut inj)) = server_item(k, &mut t, target, state, next_id, &cfg) {
+        if let Some((steps, mut inj)) = server_item(k, &mut t, target, state, next_id + if back_pressure { 2 } else { 0 }, &item_cfg) {
             if draining {
                 // (frames for streams above the announced last-stream-id may be discarded after GOAWAY, §6.8: only
                 // violations on stream 0, on the framing layer or on the target stream are judged)
@@ -441,11 +470,35 @@ pub fn gen_catalogue_server(tapes: &[Vec<u32>]) -> RawCase {
                 }
                 inj.state = "open+graceful-shutdown-done".into();
             }
+            if back_pressure {
+                // a request answered with 40 kB that cannot leave: the peer stops reading first
+                let bp = next_id;
+                let mut r = default_req(bp);
+                r.resp.chunks = vec![Chunk { len: 40_000, reserve: false, cuts: vec![], delay: 0, hold: 0 }];
+                reqs.push(r);
+                script.push(PStep::Reading(false));
+                script.push(hdr(bp, "GET", true));
+                script.push(PStep::Yield(25));
+                inj.state = format!("{}+writes-blocked", inj.state);
+            }
             script.push(PStep::Mark("inject".into()));
-            script.extend(steps);
+            if back_pressure {
+                // the peer resumes reading before the first step of the item that waits for the endpoint (else it
+                // would wait for an answer it refuses to read)
+                let mut steps = steps;
+                let at = steps.iter().position(|s| matches!(s, PStep::Barrier | PStep::WaitEnd(_) | PStep::WaitStreams(_))).unwrap_or(steps.len());
+                steps.insert(at, PStep::Reading(true));
+                steps.insert(at, PStep::Yield(15));
+                script.extend(steps);
+            } else {
+                script.extend(steps);
+            }
             inject = Some(inj);
             break;
         }
+    }
+    if back_pressure {
+        next_id += 2;
     }
     next_id += 60;
     // probe: the connection (if it is supposed to survive) still serves a plain request
@@ -463,7 +516,7 @@ pub fn gen_catalogue_server(tapes: &[Vec<u32>]) -> RawCase {
     let spec = RawSpec { peer_settings: if t.bool() { vec![] } else { vec![(3, 100), (4, 65535)] }, script, grant: Grant::Eager, close_at_end: true };
     let mut base = base_case(&mut t, tapes, cfg, reqs);
     base.ops = ops;
-    RawCase { h2_side: Side::Server, base, spec, inject, probe_stream: probe, e_out_cap: None }
+    RawCase { h2_side: Side::Server, base, spec, inject, probe_stream: probe, e_out_cap: if back_pressure { Some(*t.pick(&[64usize, 300, 2000])) } else { None } }
 }
 
 // ------------------------------------------------------------ evaluation
